@@ -343,7 +343,13 @@ func eval(c Case) (f *pbt.Fail) {
 				return pbt.Failf("position-malformed", "after %d top-level boxes (one child declares a wrong size) ReadMetadata returned nil but the reader stands at offset %d, the next top-level box starts at %d", k, pos(), nextStart(tops, k, len(file)))
 			}
 			if err != nil {
-				break // an error ends the walk; nothing further is specified
+				// the box whose content ReadMetadata rejects is a top-level box with an honest size all the same: it counts as
+				// processed, and the bytes consumed for it are its size (a caller that goes on reads the next box, not payload)
+				if want := nextStart(tops, done+1, len(file)); pos() != want {
+					return pbt.Failf("position-after-error", "ReadMetadata #%d returned %v for top-level box %q [%d,%d) and left the reader at offset %d: the next top-level box starts at %d (the next call would read payload bytes as a box header)",
+						done+1, err, tops[done].n.Type, tops[done].start, tops[done].end, pos(), want)
+				}
+				break
 			}
 			continue
 		}
@@ -647,6 +653,27 @@ func record(c Case, kind string) {
 func genMal(rt *rapid.T) Case {
 	c := genWell(rt)
 	c.Mal = true
+	// content the parser of a top-level box rejects, inside honest sizes
+	switch rapid.IntRange(0, 7).Draw(rt, "badcontent") {
+	case 0: // a uuid box too short for its 16-byte identifier
+		at := rapid.IntRange(0, len(c.Top)).Draw(rt, "short-uuid-at")
+		c.Top = append(c.Top[:at:at], append([]Node{{Type: "uuid", Len: rapid.IntRange(0, 15).Draw(rt, "short-uuid-len")}}, c.Top[at:]...)...)
+	case 1: // the Canon metadata box as a top-level box (not closed by an enclosing moov)
+		for i := range c.Top {
+			if c.Top[i].Type == "moov" {
+				for _, k := range c.Top[i].Kids {
+					if k.Role == "canon" {
+						c.Top[i] = k
+						break
+					}
+				}
+				break
+			}
+		}
+	case 2: // a preview box whose first child is not the PRVW box
+		pv := Node{Type: "PRVW", Role: "prvw", Len: rapid.SampledFrom([]int{1, 100, 3000}).Draw(rt, "junk-plen")}
+		c.Top = append(c.Top, Node{Type: "uuid", Role: "preview", Kids: []Node{{Type: "free", Len: rapid.SampledFrom([]int{0, 2, 20, 30}).Draw(rt, "junk-len")}, pv}}, Node{Type: "free", Len: 24})
+	}
 	// pick one non-top-level node and make it lie about its size
 	var cands []*Node
 	var walk func(ns []Node, top bool)
